@@ -88,7 +88,8 @@ impl Model {
                     SRes::Ready(false)
                 }
                 CState::Created(n) => {
-                    if self.queue.is_empty() && self.avail >= n {
+                    // a request for zero permits is always satisfiable and takes nothing from the queue
+                    if n == 0 || (self.queue.is_empty() && self.avail >= n) {
                         self.avail -= n;
                         self.clients[*i] = CState::None;
                         SRes::Ready(true)
@@ -129,7 +130,7 @@ impl Model {
             SOp::Try(k) => {
                 if self.closed {
                     SRes::Try(2)
-                } else if !self.queue.is_empty() || self.avail < *k {
+                } else if *k > 0 && (!self.queue.is_empty() || self.avail < *k) {
                     SRes::Try(1)
                 } else {
                     self.avail -= k;
@@ -330,7 +331,7 @@ pub fn gen_script(rng: &mut Rng, nclients: usize, len: usize) -> Vec<SOp> {
             0..=2 => {
                 if st[c] == 0 {
                     st[c] = 1;
-                    SOp::Start(c, rng.range(1, 3))
+                    SOp::Start(c, if rng.chance(1, 10) { 0 } else { rng.range(1, 3) })
                 } else {
                     SOp::Poll(c)
                 }
@@ -351,7 +352,7 @@ pub fn gen_script(rng: &mut Rng, nclients: usize, len: usize) -> Vec<SOp> {
                 }
             }
             7 | 8 => SOp::Release(rng.range(1, 3)),
-            9 => SOp::Try(rng.range(1, 3)),
+            9 => SOp::Try(if rng.chance(1, 6) { 0 } else { rng.range(1, 3) }),
             10 => {
                 if rng.chance(1, 5) {
                     SOp::Close
